@@ -14,6 +14,9 @@ THEOREMS = ['Tbox.C12.' + t for t in [
     'C12_write_error', 'C12_half_close_counterexample', 'C12_written_once', 'C12_head_of_line', 'C12_commit_after_gone',
     'C12_handler_commits_once', 'C12_scripted_admissible', 'C12_scripted_pipelining',
     'C12_respond_roundtrip', 'C12_untouched_context_answers_404', 'C12_url_codec_roundtrip', 'C12_url_roundtrip_path', 'C12_url_roundtrip_counterexample',
+    'C12_url_path_roundtrip', 'C12_url_path_roundtrip_counterexample_key', 'C12_url_reparse_counterexample',
+    'C12_url_path_roundtrip_counterexample_frag', 'C12_url_path_roundtrip_counterexample_path', 'C12_url_total',
+    'C12_request_roundtrip', 'C12_request_roundtrip_counterexample',
     'C12_nothing_after_close_counterexample_unpatched', 'C12_closing_response_lost_unpatched']]
 SOURCES = [
     'modules/http/common.cpp', 'modules/http/url.cpp', 'modules/http/request.cpp', 'modules/http/respond.cpp',
@@ -51,6 +54,12 @@ TRUSTED = ['models lean/TboxModel/C12/Model.lean (parser, feed loop) and Pipelin
            'ops method/version compare StringToMethod/StringToHttpVer with a fixed reference table (Model.stdMethods/stdVersions)',
            'method/version tables are regenerated from common.cpp on every run (GenTables.lean)',
            'kernel/socket behaviour (a small write is accepted whole; send-complete follows a burst of writes) is observed, not modelled',
+           'url.cpp is modelled completely (Model.lean: UrlEncode/UrlDecode/UrlPathToString/StringToUrlPath; Url.lean: UrlHostToString/'
+           'UrlToString/StringToUrlHost/StringToUrl incl. std::stoi port -> uint16_t); every StringTo* function is applied to a FRESH output '
+           'object (as RequestParser does); ops upath/uhost/url/mkpath/mkurl/enc/dec run the real functions on generated and hostile input '
+           '(all 256 byte values in every position class) and compare results, printed forms and the re-read value (rt=)',
+           'ops mkreq/mkres build arbitrary Request/Respond values, compare toString() byte for byte and feed the request text back into a real RequestParser',
+           'ops sstop/sclean call Server::stop()/cleanup() outside any handler while contexts are held (late commits after teardown)',
            'std::map / std::string of libstdc++ behave as ordered map / byte string']
 ASSUMPTIONS = ['size_t is 64 bit', 'operator new does not fail',
                'each Context is destroyed once (shared_ptr), so each delivered request commits exactly once']
@@ -67,7 +76,13 @@ RULE = ('cases from props/C12/plugin.py: (a) parser level — pipelines of 1-4 g
         '(c) the standard method/version names against a fixed reference table; (d) boundary families: Content-Length 0 / exactly the '
         'buffered amount / one more with every cut around the body end, the header terminator cut at every pair of places, header lines '
         'and targets up to 70 kB, 1500 headers, Content-Length digit strings at the int/size_t limits, chunked bodies (not implemented '
-        'by the server), percent-escapes cut at the end of the target, empty keys. '
+        'by the server), percent-escapes cut at the end of the target, empty keys; '
+        '(e) url.cpp: StringToUrlPath/StringToUrlHost/StringToUrl on structured + hostile strings, UrlPathToString/UrlToString on random values '
+        '(keys/values over all 256 bytes, empty keys, fragments with delimiters) and re-read, every single byte value in 18 position classes; '
+        '(f) Request::toString / Respond::toString on arbitrary values, the request text re-parsed; (g) header-line families (case of names, '
+        'duplicates, white space, empty values, no space after the colon, control/high bytes, Content-Length spellings, 5 kB lines) at parser and '
+        'server level; (h) 4-7 pipelined requests answered in fixed nasty and random permutations, with a permanent gap, with a closing request; '
+        '(i) Server::stop()/cleanup() outside handlers at random points followed by late completions. '
         'non-trivial = the model run delivers at least one request out of >= 2 segments, or parks/flushes a response, or fails/closes, '
         'or sees a peer close or a large response; '
         'distinct = distinct op text')
@@ -75,6 +90,8 @@ LEVEL_TEXT = ('Lean 4 theorems over a hand-written model of RequestParser::parse
               'consumed <= given, termination, resumability of every split, segmentation independence for streams with declared lengths, '
               'functional correctness on every well-formed request with Content-Length and hence unconditional segmentation independence '
               'for well-formed pipelines) '
+              ', of url.cpp (StringToUrlPath o UrlPathToString = id on every well-formed path value with arbitrary-byte keys/values; StringToUrl never throws) '
+              'and of Request::toString (parse o render returns the request, plus the Content-Length entry, for every printable request value) '
               'and of the response pipeline (responses written in request order exactly once, no response stuck, nothing after the closing '
               'response, connection dropped after it and only after every byte was delivered, a single tear-down under peer close at any '
               'point, peer stream = prefix of the in-order responses under partial writes); counterexample theorems for the unpatched code; the model is tied to the working '
@@ -358,6 +375,9 @@ def gen_server_case(rng):
         ops.insert(rng.randrange(first + 1, len(ops) + 1), HALF_OP)
     elif r < 0.18 and len(ops) > first:
         ops.insert(rng.randrange(first, len(ops) + 1), 'wfail')
+    # the application stops / cleans up the server at a random point, outside any handler (late commits follow)
+    if rng.random() < 0.10 and len(ops) > first:
+        ops.insert(rng.randrange(first + 1, len(ops) + 1), rng.choice(['sstop', 'sclean']))
     # peer-initiated close at a random point (handlers may still complete afterwards)
     r = rng.random()
     if r < 0.25:
@@ -410,6 +430,151 @@ def gen_big_case(rng):
     return ops
 
 
+# ----------------------------------------------------------------------------- url.cpp / request.cpp / respond.cpp values
+def rbytes(rng, n=None, alpha=None):
+    n = rng.choice([0, 1, 1, 2, 3, 5, 9]) if n is None else n
+    if alpha is None:
+        alpha = rng.choice([None, None, b'ab/;?#=&%+ .:@', b'%41%zz%4', b'\x00\xff\x80\x7f\r\n '])
+    if alpha is None: return bytes(rng.randrange(256) for _ in range(n))
+    return bytes(rng.choice(alpha) for _ in range(n))
+
+
+def kvs(pairs):
+    return ','.join('%s:%s' % (hx(k), hx(v)) for (k, v) in pairs) or '-'
+
+
+def rmap(rng, allow_empty_key=True):
+    out = []
+    for _ in range(rng.choice([0, 0, 1, 1, 2, 3])):
+        k = rbytes(rng)
+        if not k and not (allow_empty_key and rng.random() < 0.15): k = b'k'
+        out.append((k, rbytes(rng)))
+    return out
+
+
+def rpathval(rng, wf=False):
+    p = b'/' + rbytes(rng)
+    if not wf and rng.random() < 0.08: p = rbytes(rng)
+    f = rbytes(rng, alpha=b'ab#=&/:. ') if wf or rng.random() < 0.6 else rbytes(rng)
+    if rng.random() < 0.5: f = b''
+    return p, rmap(rng, not wf), rmap(rng, not wf), f
+
+
+HOST_STRS = ['h', 'example.com', 'h:80', 'h:0', 'h:65535', 'h:65536', 'h:99999', 'h:-1', 'h:+80', 'h: 80', 'h:80x', 'h:', 'h:abc', 'h:2147483647',
+             'h:2147483648', 'h:99999999999999999999', ':80', '', '@', 'u@h', 'u:p@h', 'u:p@h:8080', 'u:@h', ':p@h', '@h', 'u@', 'a@b@c', 'u:p:q@h',
+             'u@h:1:2', 'h:1:2', '%41@h', '%zz@h', 'u:%4@h', 'u@%', 'u@h%41', '%3a:%40@h', 'u:p@h:', 'u@:80', 'u:p@:', '::', ':@:', 'h:\t80', 'h:0x10',
+             'h:00080', 'h:-65535', 'h:-65536', 'h:-2147483648', 'h:-2147483649', 'u:p@h:80/x']
+URL_STRS = ['http://h/p', 'http://h', 'http://h/', 'http://u:p@h:80/a;b=c?d=e#f', 'h/p', 'h', '/', '/p?a=1', '', '://', 'a://', '://h', 'http:///p',
+            'http://h?x=1', 'http://h#f', 'http://h:80', 'http://h:80x/p', 'http://h:/p', 'http://%41/p', 'http://%zz/p', 'http://h/%zz',
+            'a://b://c/d', 'http://u:p@h/p#x://y', 'h/p#://', 'u://x@h/', 'u:%2f%2fx@h/', 'http:/h/p', 'http:h/p', ':///', 'http://h/p;', 'http://h/p?',
+            'a:b://h/p', 'a/b://h/p', '://h/p', 'x:///', 'x://@/', 'x://:@:/']
+
+
+def gen_url_case(rng):
+    ops = []
+    for _ in range(rng.choice([4, 8, 12])):
+        r = rng.random()
+        if r < 0.20:
+            t = rng.choice(TARGETS + BAD_TARGETS).encode()
+            if rng.random() < 0.4 and t:
+                i = rng.randrange(len(t) + 1); t = t[:i] + rbytes(rng, rng.choice([1, 1, 2])) + t[i + rng.choice([0, 1]):]
+            ops.append('upath ' + hx(t))
+        elif r < 0.28:
+            ops.append('upath ' + hx(rbytes(rng, rng.choice([1, 3, 8, 20]), b'/;?#=&%4a1 zZ\x00\xff')))
+        elif r < 0.50:
+            p, ps, qs, f = rpathval(rng, wf=rng.random() < 0.6)
+            ops.append('mkpath %s %s %s %s' % (hx(p), kvs(ps), kvs(qs), hx(f)))
+        elif r < 0.60:
+            t = rng.choice(HOST_STRS).encode('latin-1')
+            if rng.random() < 0.3:
+                i = rng.randrange(len(t) + 1); t = t[:i] + rbytes(rng, 1) + t[i:]
+            ops.append('uhost ' + hx(t))
+        elif r < 0.72:
+            t = rng.choice(URL_STRS).encode('latin-1')
+            if rng.random() < 0.3:
+                i = rng.randrange(len(t) + 1); t = t[:i] + rbytes(rng, 1) + t[i:]
+            ops.append('url ' + hx(t))
+        elif r < 0.86:
+            p, ps, qs, f = rpathval(rng, wf=rng.random() < 0.7)
+            tok = lambda: rbytes(rng, alpha=rng.choice([b'abc.-_', b'abc.-_', b'a%@:/']))
+            us = tok(); pw = tok() if us or rng.random() < 0.2 else b''
+            sc = rng.choice([b'http', b'https', b'', b'a:b', b'x/y', tok()])
+            ops.append('mkurl %s %s %s %s %d %s %s %s %s' % (hx(sc), hx(us), hx(pw), hx(tok()), rng.choice([0, 0, 1, 80, 8080, 65535]),
+                                                            hx(p), kvs(ps), kvs(qs), hx(f)))
+        elif r < 0.93:
+            b = rbytes(rng, rng.choice([1, 4, 12]))
+            ops.append('enc %d %s' % (rng.randrange(2), hx(b)))
+            ops.append('dec ' + hx(rbytes(rng, rng.choice([1, 3, 6]), b'%4aFg1z')))
+        else:
+            ops.append('dec ' + hx(rbytes(rng, rng.choice([2, 5, 9]))))
+    return ops
+
+
+REQ_HDR_KEYS = [b'Host', b'X-A', b'x-a', b'Content-Length', b'content-length', b'Connection', b'', b'X B', b' X', b'X:Y', b'X\rY', b'\xff\x00', b'Content-Type']
+REQ_HDR_VALS = [b'v', b'', b' v', b'v ', b'a b', b'a:b', b'5', b'0', b'abc', b'18446744073709551614', b'18446744073709551615', b'\x00\xff', b'a\rb', b'a\r\nb', b'close', b'\tv']
+
+
+def gen_msg_case(rng):
+    """Request::toString / Respond::toString on arbitrary values, and the request text read back by RequestParser"""
+    ops = []
+    for _ in range(rng.choice([3, 6])):
+        if rng.random() < 0.7:
+            p, ps, qs, f = rpathval(rng, wf=rng.random() < 0.8)
+            hs = [(rng.choice(REQ_HDR_KEYS) if rng.random() < 0.8 else rbytes(rng), rng.choice(REQ_HDR_VALS) if rng.random() < 0.8 else rbytes(rng))
+                  for _ in range(rng.choice([0, 1, 2, 3]))]
+            ops.append('mkreq %s %s %s %s %s %s %s %s' % (rng.choice(['kGet', 'kPost', 'kPut', 'kDelete', 'kHead', 'kTrace', 'kOptions', 'kUnset']),
+                       hx(p), kvs(ps), kvs(qs), hx(f), rng.choice(['k1_1', 'k1_1', 'k1_0', 'k2_0', 'kUnset']), kvs(hs), hx(rbody(rng))))
+        else:
+            hs = [(rng.choice(REQ_HDR_KEYS), rng.choice(REQ_HDR_VALS)) for _ in range(rng.choice([0, 1, 2, 3]))]
+            ops.append('mkres %s %d %s %s' % (rng.choice(['k1_1', 'k1_0', 'k2_0', 'kUnset']), rng.choice(STATUS), kvs(hs), hx(rbody(rng))))
+    return ops
+
+
+HDR_LINES = [b'X-A: b', b'X-A:b', b'X-A:   b', b'X-A : b', b' X-A: b', b'X-A: b ', b'X-A:  b  c  ', b'x-a: B', b'X-A: c', b'X-A:', b'X-A: ', b'X-A:    ',
+             b':v', b': v', b' : v', b'NoColon', b'X-A: a:b', b'X-A::', b'X-A:: v', b'X-A:\tv', b'X-A: \tv', b'X\tA: v', b'X-A: v\t', b'X-A: \x00', b'X-\xff: \xfe',
+             b'X-A: a\rb', b'X-A: a\nb', b'\nX-A: b', b'X-A: b\r', b'content-length: 3', b'CONTENT-LENGTH: 3', b'Content-length: 3', b'Content-Length : 3',
+             b' Content-Length: 3', b'Content-Length:3', b'Content-Length:  3  ', b'Content-Length: 3', b'Content-Length: 0', b'Content-Length: 03',
+             b'Content-Length: 3, 3', b'Content-Length: +3', b'Connection: close', b'connection: close', b'Connection: Close', b'Connection:close',
+             b'Connection: keep-alive, close', b'Connection: closed', b'Connection : close', b'Connection: keep-alive', b'Host: h', b'Host:  h:80 ']
+
+
+def gen_header_case(rng):
+    """what exactly reaches the handler for odd header lines: case of names, duplicates, white space around name and value,
+    empty values, no space after the colon, control and high bytes, several Content-Length spellings, long lines"""
+    n = rng.choice([1, 2, 3, 4, 6])
+    lines = [rng.choice(HDR_LINES) for _ in range(n)]
+    if rng.random() < 0.15:
+        lines.insert(rng.randrange(len(lines) + 1), b'X-Long: ' + bytes(rng.choice(b'ab ') for _ in range(rng.choice([200, 5000]))))
+    if rng.random() < 0.15:
+        lines.insert(rng.randrange(len(lines) + 1), rbytes(rng, rng.choice([1, 3, 8])) + b':' + rbytes(rng, rng.choice([1, 3, 8])))
+    ver = rng.choice([b'HTTP/1.1', b'HTTP/1.1', b'HTTP/1.0'])
+    stream = b'POST /h HTTP/1.1\r\n'.replace(b'HTTP/1.1', ver) + b''.join(l + b'\r\n' for l in lines) + b'\r\nabcGET /n HTTP/1.1\r\nContent-Length: 0\r\n\r\n'
+    segs = split_stream(rng, stream, rng.choice(['one', 'one', 'edge', 'two', 'rand']))
+    if rng.random() < 0.35:
+        return ['srv', 'sync 0 6f6b', 'sync 1 6f6b'] + ['seg ' + hx(x) for x in segs]
+    return ['feed ' + hx(x) for x in segs]
+
+
+def gen_perm_case(rng, k=None, order=None):
+    """k pipelined requests in ONE segment, every context kept, the handlers complete in a given permutation (the parked
+    responses must be flushed exactly when the gap in front of them closes)"""
+    k = k or rng.choice([5, 5, 6, 6, 4, 7])
+    closing_at = rng.choice([None, None, k - 1, rng.randrange(k)])
+    reqs = [('GET /%d HTTP/1.1\r\n%sContent-Length: 0\r\n\r\n' % (i, 'Connection: close\r\n' if closing_at == i else '')).encode() for i in range(k)]
+    n = k if closing_at is None else closing_at + 1
+    if order is None:
+        order = list(range(n)); rng.shuffle(order)
+    ops = ['srv', 'seg ' + hx(b''.join(reqs))]
+    for i in order:
+        if i < n: ops.append('done %d %s' % (i, hx(b'r%d' % i)))
+    if rng.random() < 0.3: ops.append('seg ' + hx(reqs[0]))
+    return ops
+
+
+NASTY_ORDERS = [[1, 3, 0, 2], [1, 3, 0, 2, 4], [1, 3, 5, 0, 2, 4], [4, 2, 0, 1, 3], [1, 2, 4, 5, 0, 3], [5, 3, 1, 0, 2, 4], [2, 4, 1, 0, 3, 5],
+                [1, 4, 0, 3, 2], [3, 1, 0, 2, 4], [1, 3, 4, 0, 2, 5], [2, 3, 5, 1, 0, 4], [5, 4, 3, 2, 1, 0], [1, 0, 3, 2, 5, 4], [0, 2, 4, 1, 3, 5]]
+
+
 BASE = [b'GET / HTTP/1.1\r\nContent-Length: 0\r\n\r\n',
         b'POST /p;a=b?c=d#e HTTP/1.1\r\nHost: h\r\nContent-Length: 5\r\n\r\nab\r\n:',
         b'PUT /x HTTP/1.0\r\nConnection: keep-alive\r\nContent-Length: 2\r\n\r\nhiGET /y HTTP/1.1\r\nContent-Length: 0\r\n\r\n',
@@ -460,13 +625,49 @@ def gen(rng, tier):
     yield ['srv', 'cclose', 'cclose', 'dclose 0 00', 'doneN 0 10 1', 'doneN x 1 1', 'doneN 0 3000000 1', 'doneN 0 1 256']
     for _ in range(12 if tier == 'quick' else 150):
         yield gen_big_case(rng)
+    # --- late commits after the connection / the server is gone (Context outlives its connection)
+    for stop in ('sstop', 'sclean', 'cclose'):
+        yield ['srv', 'seg ' + hx(three), 'done 1 31', stop, 'done 0 30', 'seg ' + hx(three), 'done 2 32', stop]
+        yield ['srv', 'script 0 k', 'script 1 n/k.b41', 'script 2 b42', 'seg ' + hx(three), stop, 'rel 1', 'doneR 0 201 582d41:62 6f6b', 'sstop', 'sclean']
+        yield ['srv', stop, 'seg ' + hx(three), 'done 0 30']
+    yield ['srv', 'script 0 k.s', 'seg ' + hx(three), 'sclean', 'done 0 30', 'sstop']
+    yield ['srv', 'script 1 k.c', 'seg ' + hx(three), 'done 1 31', 'sstop', 'done 0 30', 'sclean']
+    yield ['srv', 'script 1 t', 'seg ' + hx(three), 'sstop', 'sclean']
+    yield ['sstop', 'sclean', 'feed 00', 'sstop']
+    # --- permutations of 4-7 pipelined requests (fixed nasty orders + random ones)
+    for order in NASTY_ORDERS:
+        yield gen_perm_case(rng, k=len(order), order=order)
+        ops = gen_perm_case(rng, k=len(order) + 1, order=order)     # one request is never answered: a permanent gap
+        yield ops
+    for _ in range(60 if tier == 'quick' else 1500):
+        yield gen_perm_case(rng)
+    # --- url.cpp: all 256 byte values in every position class
+    for b in range(256):
+        c = bytes([b])
+        yield ['enc 0 ' + hx(c), 'enc 1 ' + hx(c), 'dec ' + hx(c), 'dec ' + hx(b'%' + c + b'0'), 'dec ' + hx(b'%0' + c), 'dec ' + hx(b'a%' + c),
+               'upath ' + hx(b'/a' + c + b'c'), 'upath ' + hx(b'/p;k' + c + b'=v' + c), 'upath ' + hx(b'/p?' + c + b'=' + c + b'&z=1'), 'upath ' + hx(b'/p#' + c),
+               'upath ' + hx(c), 'upath ' + hx(b'/%' + c + b'1'),
+               'mkpath %s %s %s -' % (hx(b'/p' + c), kvs([(b'k' + c, b'v' + c), (c, c)]), kvs([(c + c, b''), (b'a', c)])),
+               'mkpath 2f - - ' + hx(b'f' + c),
+               'uhost ' + hx(b'u' + c + b'@h' + c + b':8' + c), 'uhost ' + hx(c), 'url ' + hx(b's' + c + b'://h' + c + b'/p' + c),
+               'mkurl %s %s %s %s 80 2f - - -' % (hx(b's' + c), hx(b'u' + c), hx(b'p' + c), hx(b'h' + c))]
+    yield ['upath ' + hx(t) for t in TARGETS + BAD_TARGETS]
+    yield ['uhost ' + hx(t.encode('latin-1')) for t in HOST_STRS] + ['url ' + hx(t.encode('latin-1')) for t in URL_STRS]
+    yield ['upath', 'upath zz', 'uhost', 'url', 'url 0', 'mkpath 2f - -', 'mkpath 2f x - -', 'mkurl - - - - 65536 2f - - -', 'mkurl - - - - 1 2f - -', 'enc 2 00', 'enc 0',
+           'dec', 'mkreq kGet 2f - - - k1_1 -', 'mkreq kFoo 2f - - - k1_1 - -', 'mkreq kGet 2f - - - k3_0 - -', 'mkres k1_1 1000 - -', 'mkres kX 200 - -', 'mkres k1_1 200 -']
+    for _ in range(250 if tier == 'quick' else 6000):
+        yield gen_url_case(rng)
+    for _ in range(150 if tier == 'quick' else 4000):
+        yield gen_msg_case(rng)
+    for _ in range(250 if tier == 'quick' else 6000):
+        yield gen_header_case(rng)
 
 
 def nontrivial(ops, model_lines):
     tags = ' '.join(l for l in model_lines if l.startswith('B '))
     nseg = sum(1 for o in ops if o.startswith(('feed ', 'seg ')))
     if 'req-' in tags and nseg >= 2: return 1
-    if any(t in tags for t in ('parked', 'wrote-flush', 'wrote-closing', 'parse-fail', 'seg-after-close', 'peer-close', 'doneN', 'doneR', 'rel-', 'half-close', 'wfail', 'epipe', 'h-')): return 1
+    if any(t in tags for t in ('parked', 'wrote-flush', 'wrote-closing', 'parse-fail', 'seg-after-close', 'peer-close', 'doneN', 'doneR', 'rel-', 'half-close', 'wfail', 'epipe', 'h-', 'url-', 'absurl-', 'host-', 'upath-', 'uhost-', 'mkreq', 'mkres', 'stop-')): return 1
     return None
 
 
